@@ -74,7 +74,7 @@ def build_funcs(spec, hook=None, cache=None):
     pfs = []
     for k, fn in enumerate(spec["funcs"]):
         ishape = tuple(spec["sizes"][a] for a in fn["internal"])
-        body = terms.make_function(fn["name"], list(fn["params"]), len(fn["outs"]), ishape, hook=hook)
+        body = terms.make_function(fn["name"], list(fn["params"]), len(fn["outs"]), ishape, hook=hook, returns_none=bool(fn.get("none")))
         kw = {}
         if fn["internal"] and fn.get("ishape_via", "map") == "pipefunc":
             kw["internal_shape"] = ishape
@@ -114,7 +114,7 @@ def ref_map(spec, inputs):
             args = ",".join(terms.T(env[p]) for p in params)
             calls[name] = [args]
             for o, tag in zip(outs, tags):
-                env[o] = terms.term_array(tag, args, ishape) if internal else f"{tag}({args})"
+                env[o] = None if fn.get("none") else terms.term_array(tag, args, ishape) if internal else f"{tag}({args})"
             continue
         ext = [a for a in fn["out_axes"] if a not in internal]
         size = {}
@@ -143,7 +143,7 @@ def ref_map(spec, inputs):
                 ii = dict(zip(internal, iidx))
                 full = tuple(ids[a] if a in ids else ii[a] for a in fn["out_axes"])
                 for o, tag in zip(outs, tags):
-                    res[o][full] = f"{tag}{list(iidx)}({args})" if internal else f"{tag}({args})"
+                    res[o][full] = None if fn.get("none") else f"{tag}{list(iidx)}({args})" if internal else f"{tag}({args})"
         env.update(res)
     return env, calls
 
